@@ -13,7 +13,7 @@
 
    cfF = one-off job with the repaired timer branch (the code after the fix: commit),
    cfU = one-off job as found in the pinned tree, cfP = periodic job. *)
-From Verif Require Import Lib.Base Lib.Sched Lib.Reach Model.C02_Scheduler Model.C02_Script Proofs.C02 Proofs.C02_Script Proofs.C02_ScriptExact Proofs.C02_ScriptMore.
+From Verif Require Import Lib.Base Lib.Sched Lib.Reach Model.C02_Scheduler Model.C02_Script Proofs.C02 Proofs.C02_Script Proofs.C02_ScriptExact Proofs.C02_ScriptMore Proofs.C02_ScriptCancel.
 From Verif Require Import Model.C02_TableOps Check.C02 Proofs.C02_Check.
 
 (* never twice: under every schedule jobFunc of a one-off job is called at most once, and at most
@@ -378,6 +378,19 @@ Theorem C02_script_cancel_before_due :
 Proof. exact script_cancel_before_due. Qed.
 Print Assumptions C02_script_cancel_before_due.
 
+(* ... and for EVERY one-off script, whatever its length and whatever else it does (run requests
+   before, at or after the job's time, further cancellations, context cancellation, re-scheduling):
+   if a CancelJob call issued at an instant before the job's time returned nil, the job has no
+   start in any state in which the script can end.  (A call returns within its instant or never,
+   so the nil was returned, with the system at rest, before the timer could expire.) *)
+Theorem C02_script_cancelled_before_never_runs :
+  forall sc, sc_kind sc = OneOff -> sc_variant sc = Fixed ->
+  forall i0 cl0, nth_error (sc_calls sc) i0 = Some cl0 -> cl_kind cl0 = KCancel -> cl_at cl0 < sc_due sc ->
+  forall t, In t (finals sc) -> nth_error (t_calls t) i0 = Some (Ret Nil) ->
+    o_starts (outcome_of t) = [].
+Proof. exact script_cancelled_before_never_runs. Qed.
+Print Assumptions C02_script_cancelled_before_never_runs.
+
 (* ... and therefore in every OBSERVED outcome that the correspondence check accepts *)
 Theorem C02_checked_observation_never_twice :
   forall c sc os, agree c = true -> c_body c = Timed sc os ->
@@ -415,9 +428,9 @@ Print Assumptions C02_checked_observation_run_success_runs.
 
 Theorem C02_checked_observation_cancel_before_due :
   forall c sc os, agree c = true -> c_body c = Timed sc os ->
-    sc_kind sc = OneOff -> sc_variant sc = Fixed -> sc_end sc < sc_due sc ->
+    sc_kind sc = OneOff -> sc_variant sc = Fixed ->
     forall ob, In ob os ->
-      (exists i cl, nth_error (sc_calls sc) i = Some cl /\ cl_kind cl = KCancel
+      (exists i cl, nth_error (sc_calls sc) i = Some cl /\ cl_kind cl = KCancel /\ cl_at cl < sc_due sc
                     /\ nth_error (o_calls (ob_out ob)) i = Some (Ret Nil)) ->
       o_starts (ob_out ob) = [].
 Proof. exact checked_cancel_before. Qed.
@@ -486,3 +499,12 @@ Example C02_script_examples :
                     && list_eqb N.eqb (t_starts t) [4]) (finals sc_run) = true
   /\ existsb (fun t => list_eqb cst_eqb (t_calls t) [Ret Nil; Ret ErrNoSuchJob] && list_eqb N.eqb (t_starts t) []) (finals sc_can) = true.
 Proof. vm_compute. split; reflexivity. Qed.
+
+(* a cancellation two milliseconds before the job's time in a script that goes on well after it,
+   with a run request at the job's time: final states exist in which the CancelJob call returned
+   nil (hypotheses of C02_script_cancelled_before_never_runs) *)
+Example C02_script_cancel_example :
+  let sc := {| sc_kind := OneOff; sc_variant := Fixed; sc_due := 5; sc_dur := 1; sc_ticks := 0;
+               sc_calls := [ {| cl_at := 3; cl_kind := KCancel |}; {| cl_at := 5; cl_kind := KRun |} ]; sc_end := 9 |} in
+  existsb (fun t => list_eqb cst_eqb (t_calls t) [Ret Nil; Ret ErrNoSuchJob] && list_eqb N.eqb (t_starts t) []) (finals sc) = true.
+Proof. vm_compute. reflexivity. Qed.
